@@ -21,6 +21,9 @@
 use std::collections::HashMap;
 
 use libp2p_identity::PeerId;
+#[cfg(libp2p_verif)]
+use libp2p_core::verif_clock::Instant;
+#[cfg(not(libp2p_verif))]
 use web_time::Instant;
 
 use crate::{MessageId, ValidationError, peer_score::RejectReason};
